@@ -6,7 +6,7 @@ scheduling policy including pre-emption inside pulls, with histories A,B,A / A,A
 cancelled half-way, stream decodes and events-to-object conversions in between.
 """
 from .. import gen, model, real
-from ..layout import layout
+from ..layout import ATTR_DECRYPT, ATTR_ENCRYPT, layout
 from ..runner import HarnessError, Result
 from . import common
 
@@ -72,9 +72,60 @@ def container_history(rng, g):
     return tasks, "containers:%s" % "+".join(b[0] for b in blobs)
 
 
+ATTR_HOLDERS = ("TPMT_PUBLIC", "TPM2B_PUBLIC", "TPMS_NV_PUBLIC", "TPM2B_NV_PUBLIC", "TPMS_ALG_PROPERTY", "TPML_ALG_PROPERTY", "TPMS_CREATION_DATA", "TPML_CCA")
+
+
+def attribute_twins(rng, g):
+    """two attribute words of *different* types that hold the same number, one of them the session attributes that decide
+    whether a parameter area is encrypted: an exchange whose only session has attributes v (decrypt and / or encrypt set),
+    and a structure with an object / NV / algorithm / command attribute word equal to v that is pretty-printed (printing
+    looks at every named field of the word).  Decoded in one process, either order; each is compared with an interpreter
+    that has decoded nothing else.  -> tasks, label or None"""
+    L = layout()
+    ccs = [cc for cc in sorted(L.commands) if L.first_param_is_tpm2b(L.commands[cc]["cmd_params"]) and L.first_param_is_tpm2b(L.commands[cc]["rsp_params"])]
+    v = rng.choice((0x20, 0x40, 0x60, 0x60, 0x61, 0xE0, 0xA0, 0x24, 0x44, 0x64))
+    cmd, rsp = g.exchange(cc=rng.choice(ccs), n_sessions=1, enc=bool(v & ATTR_DECRYPT), resp_enc=bool(v & ATTR_ENCRYPT))
+    sdata, items, _ = gen.serialise_stream([cmd, rsp])
+    at = next((it for it in items if it[0] == "P" and it[1].endswith(".sessionAttributes")), None)
+    if at is None:
+        return None
+    b = bytearray(sdata)
+    b[at[4]] = v
+    for _ in range(10):
+        inp = common.gen_input(rng, ("struct", rng.choice(ATTR_HOLDERS)))
+        words = [it for it in inp["items"] if it[0] == "P" and it[2].startswith("TPMA_") and it[2] != "TPMA_SESSION" and L.valid(it[2], v)]
+        if words:
+            it = rng.choice(words)
+            d = bytearray(inp["data"])
+            d[it[4]:it[4] + it[5]] = v.to_bytes(it[5], "big")
+            o = model.decode(inp["root"], bytes(d))
+            if not o.ok:
+                continue
+            holder = dict(common.spec("d0_0", inp["root"], bytes(d), None, None, strict=True, source="bytes"), consumer="pretty")
+            exch = common.spec("d1_1", model.STREAM, bytes(b), None, None, strict=True, source=rng.choice(("bytes", "counting")))
+            tasks = [holder, exch] if rng.random() < 0.6 else [exch, holder]
+            return tasks, "twins:%s=0x%02x+%s" % (it[2], v, L.commands[cmd[2]]["name"])
+    return None
+
+
 def make_case(i, rng, tier):
     k = gen.Knobs(rng)
     g = gen.Gen(rng, k)
+    if rng.random() < 0.012:
+        tw = attribute_twins(rng, g)
+        if tw:
+            return {"input": {"label": tw[1], "n": 2, "history": "twins", "probe": None, "pristine": "each"},
+                    "tasks": tw[0], "schedule": {"policy": "sequential", "order": [t["id"] for t in tw[0]]}}
+    if rng.random() < 0.008:
+        # the same bytes under two caller-chosen roots that print identically and are different paths (an index as part of
+        # the node, or as text inside the node name - Path.from_string), each compared with an interpreter of its own
+        inp = common.gen_input(rng, common.target_for(10 ** 9, rng), k)
+        r = rng.choice([x for x in common.ROOTS if "[" in x])
+        a = common.spec("d0_0", inp["root"], inp["data"], inp["cc"], inp["enc"], strict=True, source="bytes")
+        b = common.spec("d1_1", inp["root"], inp["data"], inp["cc"], inp["enc"], strict=True, source="bytes")
+        a["root_path"], b["root_path"] = (r, "~" + r) if rng.random() < 0.5 else ("~" + r, r)
+        return {"input": {"label": "root-twins:%s:%s" % (r, inp["label"]), "n": 2, "history": "root-twins", "probe": None, "pristine": "each"},
+                "tasks": [a, b], "schedule": {"policy": "sequential", "order": ["d0_0", "d1_1"]}}
     if rng.random() < 0.12:
         tasks, label = container_history(rng, g)
         return {"input": {"label": label, "n": 2, "history": "containers", "probe": None},
@@ -277,7 +328,10 @@ def check(case):
         firsts = [next(t for t in dec if t["id"] == ids[0]) for g, ids in sorted(groups.items())]
         firsts = [t for t in firsts if not w.tasks[t["id"]].cancelled]
         opt = (case.get("_run") or {}).get("index", 0) % 2 == 1      # every other time an interpreter started with -O
-        fresh = pristine.run_fresh(firsts, optimize=opt)
+        if case["input"]["pristine"] == "each":
+            fresh = [pristine.run_fresh([f_], optimize=opt)[0] for f_ in firsts]       # an interpreter of its own for every one
+        else:
+            fresh = pristine.run_fresh(firsts, optimize=opt)
         res.count("compared-with-fresh-interpreter:-O" if opt else "compared-with-fresh-interpreter:plain")
         res.count("compared-with-fresh-interpreter", len(firsts))
         for spec_, fr in zip(firsts, fresh):
